@@ -116,9 +116,20 @@ def coq_obligations(pid):
 
 
 # ----------------------------------------------------------------------------- builds
-def build_harness():
-    with Lock("cargo"):
-        rc, out, err = run_cmd(["timeout", "1500", "cargo", "build", "--release", "--offline"], cwd=HARNESS_DIR, timeout=1600)
+HARNESS_BIN_IN_USE = [HARNESS_BIN]
+
+
+def build_harness(features=None):
+    """builds the harness against the repository's working tree; with `features` into its own target directory"""
+    cmd = ["timeout", "1500", "cargo", "build", "--release", "--offline"]
+    env = None
+    if features:
+        tdir = os.path.join(HARNESS_DIR, "target-" + features.replace(",", "-"))
+        cmd += ["--features", features]
+        env = {"CARGO_TARGET_DIR": tdir}
+        HARNESS_BIN_IN_USE[0] = os.path.join(tdir, "release", "bddh")
+    with Lock("cargo" + ("-" + features if features else "")):
+        rc, out, err = run_cmd(cmd, cwd=HARNESS_DIR, timeout=1600, env=env)
     if rc != 0:
         raise RuntimeError("harness build failed against /repo's working tree:\n" + err[-3000:])
 
@@ -162,7 +173,7 @@ def run_programs(workdir, programs, shards=16):
     procs = []
     for s, path in enumerate(files):
         tpath = os.path.join(workdir, "tr_%d.txt" % s)
-        procs.append((subprocess.Popen([HARNESS_BIN, path], stdout=open(tpath, "w"), stderr=subprocess.PIPE), tpath))
+        procs.append((subprocess.Popen([HARNESS_BIN_IN_USE[0], path], stdout=open(tpath, "w"), stderr=subprocess.PIPE), tpath))
     for p, tpath in procs:
         try:
             _, err = p.communicate(timeout=STEP_TIMEOUT)
